@@ -691,6 +691,13 @@ func (w *World) DisputeStory(o HistOpts) {
 			w.block(o, 2*sec, func() { w.WithdrawFeeRefund(payers[0], payers[0], id) }, func() { w.WithdrawFeeRefund(payers[0], payers[0], id) })
 			return
 		default:
+			// funding that stops just short of the full fee (between 95% and 100%): nothing may happen yet
+			if w.pick(3) == 0 {
+				short := full.Int64() - first - full.Int64()/int64(25+w.pick(60))
+				if short > 0 {
+					w.block(o, 3*sec, func() { w.AddFee(payers[1], id, short, false) })
+				}
+			}
 			// several payers with amounts that do not divide evenly (sub-unit dust on every refund)
 			w.block(o, 3*sec, func() { w.AddFee(payers[1], id, full.Int64()/4+1+int64(w.pick(1000)), w.pick(4) == 0) },
 				func() { w.AddFee(payers[2], id, int64(7+w.pick(5000)), false) },
@@ -791,6 +798,16 @@ func (w *World) DisputeStory(o HistOpts) {
 		w.block(o, 3*sec, claims[:n]...)
 		claims = claims[n:]
 	}
+	// every voter claims once more on the final round's id (a second claim must not pay again, whichever round the voter
+	// voted in)
+	final := w.lastDisputeId()
+	var again []func()
+	for _, v := range voters {
+		v := v
+		again = append(again, func() { w.ClaimReward(v, final) })
+	}
+	w.Rng.Shuffle(len(again), func(i, j int) { again[i], again[j] = again[j], again[i] })
+	w.block(o, 3*sec, again...)
 	if w.pick(2) == 0 {
 		w.block(o, 2*sec, func() { w.WithdrawFeeRefund(payers[0], payers[0], id) }, func() { w.ClaimReward(w.Team, id) }, func() { w.Unjail(r) })
 	}
